@@ -2,18 +2,19 @@
 from . import vise, core
 PID = 'C07'
 MC = []
-TR = ['C07_Equiv', 'C07_Snapshot']
+TR = ['C07_Equiv', 'C07_Snapshot', 'C07_Reuse', 'C07_ReuseConsistent']
 
 
 def run(tier):
     f = vise.Family(PID, tier, MC, TR, ['nav', 'scope', 'flags', 'ends'], modes=('P',))
     f.out.assumptions = ['Postgres = the real pgDb over an in-process transactional fake of the driver interface; gdbm cannot be built here',
-                         'transcripts are compared up to the end of the session (first stop or error)']
+                         'transcripts are compared up to the end of the session (first stop or error)',
+                         'persister reuse is judged only WithFlush (which promises an empty persister after every Save); a kept persister without it still holds the previous session']
     t = f.thorough
     f.out.stage('A model check (product of long-lived and persisted copy)'); vise_eq(f, 6 if t else 4)
     f.out.stage('B+C model histories in persisted mode (snapshot round trip)'); f.replay_model(5 if t else 4)
-    f.out.stage('B+C model histories served in both modes (paired)'); f.pairs_model(5 if t else 4, ['pages', 'nav', 'capacity', 'lang', 'flags'] if t else ['pages', 'lang', 'nav'])
-    f.out.stage('C paired runs long-lived vs persisted over mem / fs / pg-fake'); f.pairs_stage(150 if t else 25, 12, 10)
+    f.out.stage('B+C model histories served in both modes (paired)'); f.pairs_model(5 if t else 4, ['pages', 'nav', 'capacity', 'lang', 'flags', 'rempty', 'inline'] if t else ['pages', 'lang', 'nav', 'rempty'])
+    f.out.stage('C paired runs long-lived vs persisted over mem / fs / pg-fake; two sessions alternating through one reused Persister'); f.pairs_stage(150 if t else 25, 12, 10)
     return f.finish('Every generated history served twice (one long-lived engine; fresh engine + Persister per request) on each store, transcripts compared; '
                     'stored snapshot re-read into fresh objects and compared with the live session after every persisted request;')
 
